@@ -8,6 +8,7 @@ The tiling property follows from I1, I2 and Omega_0 = all coarse cells by induct
 import z3
 from pyvc.spec import *
 from pyvc.values import VSetVal, Ref, SetListContent, fresh_name, VTuple
+from pyvc.symexec import OutOfSubset
 
 F = 'pyiga/hierarchical.py'
 Cell = z3.DeclareSort('Cell')
@@ -93,7 +94,8 @@ def _refine_post(s):
             ('active = (old - marked) u children(marked below)', ForAll('l', lambda l: Implies(And(0 <= l, l < L), _cq('c', lambda c:
                 act.member(l, c) == Or(And(a0.member(l, c), Not(M.member(l, c))), And(l >= 1, M.member(l - 1, parent(c)))))))),
             ('returns-the-children', ForAll('l', lambda l: Implies(And(1 <= l, l < L), _cq('c', lambda c: s.result.member(l, c) == M.member(l - 1, parent(c)))))),
-            ('level-0-region-unchanged', _cq('c', lambda c: Or(act.member(0, c), deact.member(0, c)) == Or(a0.member(0, c), d0.member(0, c))))] + \
+            ('level-0-region-unchanged', _cq('c', lambda c: Or(act.member(0, c), deact.member(0, c)) == Or(a0.member(0, c), d0.member(0, c)))),
+            ('lengths', And(act.len == L, deact.len == L, s.result.len == L + 1))] + \
            [(lab, f) for lab, f in region_inv(act, deact, L)]
 
 
@@ -101,6 +103,7 @@ hmesh_refine = Contract(
     F, 'HMesh.refine',
     params={'self': Obj(active=SetList(Cell), deactivated=SetList(Cell), meshes=SetList(Cell)), 'marked': SetList(Cell)},
     requires=_refine_req,
+    modifies=('self.active', 'self.deactivated'), result=SetList(Cell),
     callees={'self.cell_children': _cell_children_spec},
     replace=[(r'max_lv = max\(', _skip_max), (r'self\.ensure_levels\(max_lv \+ 2\)', _ensure_levels), (r'new_cells = dict\(\)', _new_cells)],
     loops={0: LoopSpec(r'for lv in range\(len\(self\.meshes\) - 1\)', inv=_refine_inv)},
@@ -153,6 +156,11 @@ def _nbh_spec(ex, st, call, l, cells, truncate=False, **k):
         raise OutOfSubset('_cell_neighborhood called with a non-set')
     d = st.heap[st.env['self'].id].attrs['disparity']
     tr = truncate if z3.is_expr(truncate) else z3.BoolVal(bool(truncate))
+    me = st.heap[st.env['self'].id]
+    if 'hmesh' in me.attrs:
+        # postcondition of _cell_neighborhood (verified below): the neighbourhood consists of active cells of level l-d
+        act = ex.spec_value(st, st.heap[me.attrs['hmesh'].id].attrs['active'])
+        ex.assume(st, Implies(to_z3(l) - to_z3(d) >= 0, z3.IsSubset(Nbh(to_z3(l), sv[0], tr), act[to_z3(l) - to_z3(d)])))
     return VSetVal(z3.If(to_z3(l) - to_z3(d) < 0, z3.EmptySet(Cell), Nbh(to_z3(l), sv[0], tr)), Cell)
 
 
@@ -160,9 +168,13 @@ def _closed(M, lv, d, tr):
     return Implies(lv - d >= 0, z3.IsSubset(Nbh(lv, M[lv], tr), M[lv - d]))
 
 
+def _marks_active(M, act):
+    return ForAll('k', lambda k: Implies(And(0 <= k, k < M.len), z3.IsSubset(M[k], act[k])))
+
+
 def _mark_req(s):
     d, M = s.self.disparity, s.marked
-    return [d >= 1, 0 <= s.l, s.l < M.len,
+    return [d >= 1, 0 <= s.l, s.l < M.len, s.self.hmesh.active.len == M.len, _marks_active(M, s.self.hmesh.active),
             ForAll('k', lambda k: Implies(And(0 <= k, k < s.l), _closed(M, k, d, s.truncate)))]
 
 
@@ -171,12 +183,13 @@ def _mark_post(s):
     return [('closed-up-to-l', ForAll('k', lambda k: Implies(And(0 <= k, k <= s.l), _closed(M, k, d, s.truncate)))),
             ('length', M.len == M0.len),
             ('only-grows', ForAll('k', lambda k: Implies(And(0 <= k, k < M.len), z3.IsSubset(M0[k], M[k])))),
-            ('levels-above-l-minus-d-unchanged', ForAll('k', lambda k: Implies(And(k > s.l - d, k < M.len), M[k] == M0[k])))]
+            ('levels-above-l-minus-d-unchanged', ForAll('k', lambda k: Implies(And(k > s.l - d, k < M.len), M[k] == M0[k]))),
+            ('marks-are-active-cells', _marks_active(M, s.self.hmesh.active))]
 
 
 mark_recursive = Contract(
     F, 'HSpace._mark_recursive',
-    params={'self': Obj(disparity=Int(1)), 'l': Int(0), 'marked': SetList(Cell), 'truncate': Bool()},
+    params={'self': Obj(disparity=Int(1), hmesh=Obj(active=SetList(Cell))), 'l': Int(0), 'marked': SetList(Cell), 'truncate': Bool()},
     requires=_mark_req,
     modifies=('marked',),
     callees={'self._cell_neighborhood': _nbh_spec},
@@ -189,7 +202,45 @@ mark_recursive = Contract(
 mark_recursive.callees['self._mark_recursive'] = mark_recursive
 
 
-CONTRACTS = [hmesh_refine, mark_recursive] + [_children_contract(d) for d in (1, 2, 3)] + [_parent_contract(d) for d in (1, 2, 3)]
+Ext = z3.Function('support_extension', z3.IntSort(), _SetCell, z3.IntSort(), _SetCell)
+ParentSet = z3.Function('parent_set', z3.IntSort(), _SetCell, _SetCell)
+
+
+def _ext_spec(ex, st, call, l, cells, k, **kw):
+    sv = ex.as_set(st, cells, call)
+    if sv is None:
+        raise OutOfSubset('cell_support_extension called with a non-set')
+    return VSetVal(Ext(to_z3(l), sv[0], to_z3(k)), Cell)
+
+
+def _parent_set_spec(ex, st, call, lv, cells, **kw):
+    sv = ex.as_set(st, cells, call)
+    return VSetVal(ParentSet(to_z3(lv), sv[0]), Cell)
+
+
+_ext_spec.writes = ()
+_parent_set_spec.writes = ()
+
+
+def _as_set_term(r):
+    return z3.EmptySet(Cell) if isinstance(r, tuple) and len(r) == 0 else r
+
+
+cell_neighborhood = Contract(
+    F, 'HSpace._cell_neighborhood',
+    params={'self': Obj(disparity=Int(1), hmesh=Obj(active=SetList(Cell))), 'l': Int(0), 'cells': SetOf(Cell), 'truncate': Bool()},
+    requires=lambda s: [s.l < s.self.hmesh.active.len],
+    callees={'self.cell_support_extension': _ext_spec, 'cell_parent': _parent_set_spec},
+    replace=[],
+    ensures=lambda s: [('only-active-cells-of-level-l-minus-d', Implies(s.l - s.self.disparity >= 0,
+                                                                         z3.IsSubset(_as_set_term(s.result), s.self.hmesh.active[s.l - s.self.disparity]))),
+                       ('empty-below-level-d', Implies(s.l - s.self.disparity < 0, _as_set_term(s.result) == z3.EmptySet(Cell)))],
+    options={'timeout_ms': 30000},
+    notes=['the support extension and the parent map are uninterpreted set operators: whatever they return, the neighbourhood is intersected '
+           'with the active cells of level l - d, so marking it keeps the marks inside the active cells (the precondition of HMesh.refine)'],
+)
+
+CONTRACTS = [hmesh_refine, mark_recursive, cell_neighborhood] + [_children_contract(d) for d in (1, 2, 3)] + [_parent_contract(d) for d in (1, 2, 3)]
 
 
 # ---- the marking pass of HSpace.refine: after it the marks are closed under Nbh on EVERY level -------------------------------------
@@ -210,13 +261,14 @@ def _marking_post(s):
     L = s.self.numlevels
     return [('closed-on-every-level', ForAll('k', lambda k: Implies(And(0 <= k, k < L), _closed(M, k, d, s.truncate)))),
             ('only-grows', ForAll('k', lambda k: Implies(And(0 <= k, k < L), z3.IsSubset(M0[k], M[k])))),
+            ('marks-are-active-cells', _marks_active(M, s.self.hmesh.active)),
             ("caller's-dict-untouched", ForAll('k', lambda k: Implies(And(0 <= k, k < L), s.old.marked[k] == M0[k])))]
 
 
 hspace_refine_marking = Contract(
     F, 'HSpace.refine', name='hierarchical:HSpace.refine[admissibility marking]',
-    params={'self': Obj(disparity=Int(1), numlevels=Int(1)), 'marked': SetList(Cell), 'truncate': Bool()},
-    requires=lambda s: [s.marked.len == s.self.numlevels,
+    params={'self': Obj(disparity=Int(1), numlevels=Int(1), hmesh=Obj(active=SetList(Cell))), 'marked': SetList(Cell), 'truncate': Bool()},
+    requires=lambda s: [s.marked.len == s.self.numlevels, s.self.hmesh.active.len == s.self.numlevels, _marks_active(s.marked, s.self.hmesh.active),
                         # (ensure_levels has run: the finest level and everything beyond carries no marks)
                         ForAll('l', lambda l: Implies(Or(l < 0, l >= s.self.numlevels - 1), _cq('c', lambda c: Not(s.marked.member(l, c)))))],
     callees={'self._mark_recursive': None},
@@ -224,6 +276,7 @@ hspace_refine_marking = Contract(
     loops={0: LoopSpec(r'for l in range\(self\.numlevels\)', inv=lambda s: [
         ('closed-below-l', ForAll('k', lambda k: Implies(And(0 <= k, k < s.l), _closed(s.marked, k, s.self.disparity, s.truncate)))),
         ('len', s.marked.len == s.self.numlevels),
+        ('marks-are-active-cells', _marks_active(s.marked, s.self.hmesh.active)),
         ('only-grows', ForAll('k', lambda k: Implies(And(0 <= k, k < s.marked.len), z3.IsSubset(s.old.marked[k], s.marked[k]))))])},
     ensures=_marking_post,
     options={'timeout_ms': 60000, 'stop_after': r'if self\.disparity < np\.inf', 'no_return_ok': True},
@@ -382,3 +435,195 @@ position_index = Contract(
 )
 
 CONTRACTS = CONTRACTS + [position_index, hspace_refine_marking]
+
+
+# ---- function activation: HSpace._functions_to_deactivate and the activation loop of HSpace.refine -----------------------------------
+# Basis functions are elements of an uninterpreted sort; insupp(l, f, c) says that cell c of level l lies in the support of the level-l
+# function f (every function has at least one cell: wit).  TPMesh objects are identified with their level; the two support queries
+# are used through their contracts
+#     mesh(l).supported_in(C) = {f : exists c in C. insupp(l, f, c)}       mesh(l).support(F) = {c : exists f in F. insupp(l, f, c)}
+# With Omega_l = active[l] u deactivated[l] (level-l cells of the level-l region; deactivated[l] = level-l cells of the level-(l+1) region):
+#     F-inv   f in actfun[l]    <=>  supp(f) <= Omega_l  and not  supp(f) <= deactivated[l]
+#             f in deactfun[l]  <=>  supp(f) <= deactivated[l]
+# which is the activation clause of the property, stated level by level.
+Fun = z3.DeclareSort('Fun')
+insupp = z3.Function('insupp', z3.IntSort(), Fun, Cell, z3.BoolSort())
+wit = z3.Function('supp_witness', z3.IntSort(), Fun, Cell)
+
+
+def _fq(body):
+    f = z3.Const(fresh_name('f'), Fun)
+    return z3.ForAll([f], body(f))
+
+
+def _supp_in(l, f, pred):
+    """supp_l(f) is contained in {c : pred(c)}"""
+    return _cq('c', lambda c: Implies(insupp(l, f, c), pred(c)))
+
+
+def _supp_meets(l, f, pred):
+    c = z3.Const(fresh_name('c'), Cell)
+    return z3.Exists([c], And(insupp(l, f, c), pred(c)))
+
+
+def _mesh_spec(ex, st, call, lv, **k):
+    return to_z3(lv)
+
+
+def _level_of_receiver(ex, st, call):
+    lv = ex.ev(call.func.value, st)
+    if not (isinstance(lv, int) or (z3.is_expr(lv) and z3.is_int(lv))):
+        raise OutOfSubset('support query on something that is not self.mesh(level) at line %d' % call.lineno)
+    return to_z3(lv)
+
+
+def _supported_in_spec(ex, st, call, cells, **k):
+    lv = _level_of_receiver(ex, st, call)
+    sv = ex.as_set(st, cells, call)
+    if sv is None:
+        raise OutOfSubset('supported_in called with a non-set')
+    f, c = z3.Const(fresh_name('f'), Fun), z3.Const(fresh_name('c'), Cell)
+    return VSetVal(z3.Lambda([f], z3.Exists([c], And(z3.Select(sv[0], c), insupp(lv, f, c)))), Fun)
+
+
+def _support_spec(ex, st, call, funcs, **k):
+    lv = _level_of_receiver(ex, st, call)
+    c = z3.Const(fresh_name('c'), Cell)
+    if isinstance(funcs, Ref) and hasattr(st.heap[funcs.id], 'items'):
+        items = list(st.heap[funcs.id].items)       # support([f]): a literal list of functions
+        return VSetVal(z3.Lambda([c], Or(*[insupp(lv, ex.pack(f, Fun), c) for f in items]) if items else z3.BoolVal(False)), Cell)
+    sv = ex.as_set(st, funcs, call)
+    if sv is None:
+        raise OutOfSubset('support called with neither a list literal nor a set')
+    f = z3.Const(fresh_name('f'), Fun)
+    return VSetVal(z3.Lambda([c], z3.Exists([f], And(z3.Select(sv[0], f), insupp(lv, f, c)))), Cell)
+
+
+for _f in (_mesh_spec, _supported_in_spec, _support_spec):
+    _f.writes = ()
+
+
+class _HM:
+    """the view of the HMesh stored in self.hmesh, shaped like the view HMesh.refine's own contract is written over"""
+
+    def __init__(self, s, old=False):
+        self.self = (s.old.self if old else s.self).hmesh
+        self.marked = s.marked
+        self._s, self._old = s, old
+
+    @property
+    def old(self):
+        return _HM(self._s, old=True)
+
+
+def _finv(act, deact, A, D, L, lo=0):
+    """F-inv on the levels lo <= l < L"""
+    return [('active-iff-in-region-l-not-in-region-l+1', ForAll('l', lambda l: Implies(And(lo <= l, l < L), _fq(lambda f: act.member(l, f) == And(
+                _supp_in(l, f, lambda c: Or(A.member(l, c), D.member(l, c))), Not(_supp_in(l, f, lambda c: D.member(l, c)))))))),
+            ('deactivated-iff-in-region-l+1', ForAll('l', lambda l: Implies(And(lo <= l, l < L), _fq(lambda f: deact.member(l, f) == _supp_in(l, f, lambda c: D.member(l, c))))))]
+
+
+def _supports_nonempty():
+    l = z3.Int(fresh_name('l'))
+    f = z3.Const(fresh_name('f'), Fun)
+    return z3.ForAll([l, f], insupp(l, f, wit(l, f)))
+
+
+def _mf_spec(mf, s_self, M, L):
+    """the set computed by _functions_to_deactivate: active functions meeting a marked cell with no active cell (of the CURRENT mesh) in their support"""
+    hm = s_self.hmesh
+    return ForAll('l', lambda l: Implies(And(0 <= l, l < L), _fq(lambda f: mf.member(l, f) == And(
+        s_self.actfun.member(l, f), _supp_meets(l, f, lambda c: M.member(l, c)), Not(_supp_meets(l, f, lambda c: hm.active.member(l, c)))))))
+
+
+def _new_mf(ex, st):
+    hm = st.heap[st.heap[st.env['self'].id].attrs['hmesh'].id]
+    n = ex.spec_value(st, hm.attrs['meshes'])
+    r = Ref('mf')
+    st.heap[r.id] = SetListContent(n.len, z3.K(z3.IntSort(), z3.EmptySet(Fun)), Fun)
+    st.env['mf'] = r
+
+
+_HSPACE = Obj(hmesh=Obj(active=SetList(Cell), deactivated=SetList(Cell), meshes=SetList(Cell)), actfun=SetList(Fun), deactfun=SetList(Fun))
+_SUPPORT_CALLEES = {'mesh': _mesh_spec, 'supported_in': _supported_in_spec, 'support': _support_spec}
+
+functions_to_deactivate = Contract(
+    F, 'HSpace._functions_to_deactivate',
+    params={'self': _HSPACE, 'marked': SetList(Cell)},
+    requires=lambda s: [s.self.hmesh.meshes.len >= 1, s.marked.len == s.self.hmesh.meshes.len, s.self.actfun.len == s.self.hmesh.meshes.len,
+                        s.self.hmesh.active.len == s.self.hmesh.meshes.len],
+    callees=dict(_SUPPORT_CALLEES),
+    replace=[(r'mf = dict\(\)', _new_mf)],
+    loops={0: LoopSpec(r'for lv in range\(len\(self\.hmesh\.meshes\)\)', inv=lambda s: [
+        ('len', s.mf.len == s.self.hmesh.meshes.len),
+        ('done-levels', _mf_spec(s.mf, s.self, s.marked, s.lv))])},
+    result=SetList(Fun),
+    ensures=lambda s: [('len', s.result.len == s.self.hmesh.meshes.len),
+                       ('marked-active-functions-without-active-cells', _mf_spec(s.result, s.self, s.marked, s.self.hmesh.meshes.len))],
+    options={'timeout_ms': 60000},
+    notes=['basis functions: uninterpreted sort with the support relation insupp(level, f, cell); TPMesh objects are identified with their level '
+           '(self.mesh(lv) is lv); supported_in/support are used through their contracts over insupp (assumed here; the tensor-product index '
+           'arithmetic behind them is exercised by the bounded tier); marked: total map level -> set; mf = dict() is a total map of empty sets'],
+)
+
+
+def _act_req(s):
+    hm = s.self.hmesh
+    L = hm.meshes.len
+    return list(_refine_req(_HM(s))) + [s.self.actfun.len == L, s.self.deactfun.len == L, L >= 2, _supports_nonempty()] + \
+        [f for _, f in _finv(s.self.actfun, s.self.deactfun, hm.active, hm.deactivated, L)]
+
+
+def _act_inv(s):
+    hm, hm0 = s.self.hmesh, s.old.self.hmesh
+    L, lv = hm.meshes.len, s.lv
+    act, de, act0, de0 = s.self.actfun, s.self.deactfun, s.old.self.actfun, s.old.self.deactfun
+    A, D = hm.active, hm.deactivated
+    return [('lengths', And(act.len == L, de.len == L)),
+            ('done-levels', And(*[f for _, f in _finv(act, de, A, D, lv)])),
+            # on the current level the new functions are active already, nothing has been deactivated yet
+            ('current-level', Implies(lv < L, _fq(lambda f: And(
+                act.member(lv, f) == And(_supp_in(lv, f, lambda c: Or(A.member(lv, c), D.member(lv, c))), Not(_supp_in(lv, f, lambda c: hm0.deactivated.member(lv, c)))),
+                de.member(lv, f) == de0.member(lv, f))))),
+            ('later-levels', ForAll('l', lambda l: Implies(And(lv < l, l < L), _fq(lambda f: And(act.member(l, f) == act0.member(l, f), de.member(l, f) == de0.member(l, f))))))]
+
+
+def _act_post(s):
+    hm = s.self.hmesh
+    return _finv(s.self.actfun, s.self.deactfun, hm.active, hm.deactivated, hm.meshes.len) + \
+        [('lengths', And(s.self.actfun.len == hm.meshes.len, s.self.deactfun.len == hm.meshes.len))]
+
+
+def _skip_marking(ex, st):
+    pass
+
+
+def _mf_at_entry(mf, s):
+    """what the call of _functions_to_deactivate established (it ran before the loop, on the old function sets and the new mesh)"""
+    hm = s.self.hmesh
+    return ForAll('l', lambda l: Implies(And(0 <= l, l < hm.meshes.len), _fq(lambda f: mf.member(l, f) == And(
+        s.old.self.actfun.member(l, f), _supp_meets(l, f, lambda c: s.marked.member(l, c)), Not(_supp_meets(l, f, lambda c: hm.active.member(l, c)))))))
+
+
+hspace_refine_activation = Contract(
+    F, 'HSpace.refine', name='hierarchical:HSpace.refine[function activation]',
+    params={'self': _HSPACE, 'marked': SetList(Cell), 'truncate': Bool()},
+    requires=_act_req,
+    callees=dict(_SUPPORT_CALLEES, **{'self._clear_cache': lambda ex, st, call, *a, **k: None}),
+    replace=[(r'max_lv = max\(', _skip_max), (r'self\._ensure_levels\(max_lv \+ 2\)', lambda ex, st: None),
+             (r'if self\.disparity < np\.inf', _skip_marking)],
+    loops={1: LoopSpec(r'for lv in range\(len\(self\.hmesh\.meshes\) - 1\)', inv=lambda s: _act_inv(s) + [
+        ('mf-is-what-was-computed', _mf_at_entry(s.mf, s)), ('mf-len', s.mf.len == s.self.hmesh.meshes.len)])},
+    ensures=_act_post,
+    options={'timeout_ms': 120000},
+    notes=['the part of HSpace.refine after the admissibility-marking pass (which has its own contract): `marked` denotes the dictionary after '
+           'that pass; the levels exist (precondition) and the marks are active cells below the finest level',
+           'HMesh.refine and _functions_to_deactivate are used through their contracts (both verified above); _clear_cache is a no-op on '
+           'the modelled state (its placement is the cache-invalidation obligation)',
+           'precondition: the region invariants I1/I2 and F-inv hold before the call (they hold for a new HSpace and are re-established by '
+           'this postcondition: an inductive invariant of every refinement history); supports are non-empty'],
+)
+hspace_refine_activation.callees['refine'] = hmesh_refine
+hspace_refine_activation.callees['self._functions_to_deactivate'] = functions_to_deactivate
+
+CONTRACTS = CONTRACTS + [functions_to_deactivate, hspace_refine_activation]
